@@ -398,8 +398,12 @@ func init() {
 		Runs: []Run{
 			{Pkg: "fasthttp", Func: "vhC04Sequential", Quick: map[string]int{"calls": 2}, Thorough: map[string]int{"calls": 3}, PathCap: 1500000},
 			{Pkg: "fasthttp", Func: "vhC04Pipeline", Quick: map[string]int{"calls": 3}, Thorough: map[string]int{"calls": 4}, NoNative: true},
+			{Pkg: "fasthttp", Func: "vhC04OverlappingStreams"},
+			{Pkg: "fasthttp", Func: "vhC04PipelineAfterTimeout", NoNative: true},
 		},
-		Assume: []string{clientAssume,
+		Assume: []string{
+			"responses open at the same time (vhC04OverlappingStreams): StreamResponseBody, two or three calls made before any body is read, each body arriving in a read of its own after the head (fixed length or chunked, one symbolic byte), then read in one of three orders: each stream yields its own request's body",
+			"calls after a timeout (vhC04PipelineAfterTimeout): PipelineClient against a server answering 150 ms late; one or two calls give up after 100 ms, then one or two calls with a 2 s timeout follow on the same connection after 0 / 60 / 200 ms: each gets the response to its own request; virtual clock, not re-run natively",clientAssume,
 			"PipelineClient (vhC04Pipeline): `calls` concurrent DoTimeout(1 s) calls through one PipelineClient (MaxConns 1) on the engine's scheduler with virtual time, against a reactive in-memory server that answers every complete request with that request's path; the first connection may be closed by the server after 1 or 2 requests, of which a prefix was answered; every successful call must carry its own path; cooperative schedules only, choices only, not re-run natively",
 			"sequential calls (vhC04Sequential) (2 quick / 3 thorough GETs through one HostClient, default MaxConns): each connection answers the j-th request written on it with the j-th response of its script; response kinds {Content-Length keep-alive, Content-Length + Connection: close, chunked, chunked whose single chunk continues with bytes that spell a complete response}, each carrying two arbitrary tag bytes; delivered in one read or split after the first two body bytes; StreamResponseBody on/off with the caller reading none / 2 bytes / all of the stream before closing it; request Connection: close on/off",
 			"concurrent HostClient calls, timeouts racing the response, and servers that close mid-response are outside this check",
@@ -417,8 +421,10 @@ func init() {
 		Units: fsUnits,
 		Runs: []Run{
 			{Pkg: "fasthttp", Func: "vhC23FSRoot", Quick: map[string]int{"targetLen": 2, "hostLen": 1}, Thorough: map[string]int{"targetLen": 3, "hostLen": 1}, PathCap: 3000000},
+			{Pkg: "fasthttp", Func: "vhC23OSRoot", Quick: map[string]int{"targetLen": 3}, Thorough: map[string]int{"targetLen": 4}, NoNative: true},
 		},
-		Assume: []string{fsAssume,
+		Assume: []string{
+			"operating-system branch (vhC23OSRoot): FS.FS unset, Root /srv/r, the built-in rewriters; (*osFS).Open and (*osFS).Stat are replaced under the engine by harness stubs (//verif:stub) that record the name and answer 'does not exist': every name the real path-joining code hands to the operating system is the root or lexically below it; targets: '/' + ≤targetLen arbitrary bytes, '/s/' + 2 bytes, '/ab' + 2 bytes; not re-run natively (a native run would touch the real file system)",fsAssume,
 			"request target '/' + ≤ targetLen arbitrary bytes through the real URI parser and path normaliser; Root ∈ {r, r/s, empty}; Compress on/off (Accept-Encoding: gzip); no rewriter or NewVHostPathRewriter / NewPathSlashesStripper / NewPathPrefixStripper with count 0..2; host of ≤ hostLen arbitrary bytes for the virtual-host rewriter; every file is absent, so the subject is which names are passed to Open",
 			"obligations: every opened name is the root or lexically below it without a '..' segment; a path containing NUL opens nothing and is answered 400; a rewritten path with a '..' segment opens nothing",
 		},
